@@ -370,6 +370,11 @@ func validators(x *h.X, c vcfg, now time.Time) (*jwt.Validator, ref.JWTValidator
 	x.Eval(1)
 	constructible := rv.Constructible() && !bothAud
 	if constructible && err != nil {
+		if c.typV == 4 || c.issV == 4 || c.audV == 6 {
+			// expecting the empty string: a validator constructor that refuses it contradicts nothing in the statement
+			x.Outcome("empty-string expectation refused by NewValidator (not judged)")
+			return nil, rv, false
+		}
 		x.Fail("validator-refused", "NewValidator refuses admissible options %+v: %v", c, err)
 		return nil, rv, false
 	}
@@ -422,6 +427,12 @@ func checkValidatorCell(x *h.X, t tally, p *hsPrims, c vcfg, v *jwt.Validator, r
 		ctx = d
 		raw, err := jwt.NewRawJWT(o)
 		if err != nil {
+			if c.typTok == 3 || c.issTok == 3 || c.audTok >= 6 {
+				// an empty-but-present typ / iss / aud: a producer that refuses to WRITE it contradicts nothing in
+				// the statement (which speaks about what is accepted); recorded, not judged
+				x.Outcome("empty-string claim refused by NewRawJWT (not judged)")
+				return
+			}
 			x.Fail("rawjwt-refused", "NewRawJWT refuses valid options %s: %v", ctx, err)
 			return
 		}
@@ -818,6 +829,10 @@ func roundTripSection(x *h.X) {
 		cfg += fmt.Sprintf(" kidA=%q", kidA)
 	}
 	A, err := buildKey(alg, 0, mode, idA, kidA)
+	if err != nil && mode == ref.JWTKidCustom && kidA == "" {
+		x.Outcome("key with the empty custom kid refused at construction (not judged)")
+		return
+	}
 	if err != nil {
 		x.Fail("construct", "%s: key A: %v", cfg, err)
 		return
